@@ -7,7 +7,8 @@ from ..common import pmap, log, build, Work, sh, tlc_retry, write_ndjson
 from .. import corpus
 
 LEVEL = "model_checking"
-CFG = b"indent_columns=4\nindent_with_tabs=0\nalign_var_def_span=1\nmod_sort_include=true\nnl_end_of_file=ignore\n"
+CFG = (b"indent_columns=4\nindent_with_tabs=0\nalign_var_def_span=1\nmod_sort_include=true\nnl_end_of_file=ignore\n"
+       b"sp_inside_fparen=force\nsp_after_comma=force\nmod_sort_incl_import_prioritize_filename=true\n")
 
 # hand-written representatives of the Batch.tla file classes (name -> bytes)
 REPS = {
@@ -19,6 +20,8 @@ REPS = {
     "if_open.c": b"#if A\nint  a ;\n#if B\nint b;\n",
     "if_user.c": b"#if X\nint  x ;\n#else\nint y;\n#endif\nint z;\n",
     "qt_macro.cpp": b"void f() {\n  connect(a, SIGNAL(x(int)), b, SLOT(y(int)));\n}\n",
+    "qt_word.cpp": b"int SIGNAL;\nint SLOT;\nvoid g(int a,int b);\n",
+    "own_header.cpp": b"#include \"zeta.h\"\n#include \"own_header.h\"\n#include \"plain.h\"\nvoid h(int a,int b);\n",
     "crlf.c": b"int  a ;\r\nint   b;\r\n",
     "cr_only.c": b"int  a ;\rint   b;\r",
     "ends_in_cr.c": b"int a; /* c\r */\r",
@@ -133,7 +136,7 @@ def run(ctx):
         pairs = [(a, b) for a in rl for b in rl if a != b]
         if quick:
             ctx.rng.shuffle(pairs)
-            pairs = pairs[:220 if l is None else 110]
+            pairs = pairs[:900 if l is None else 150]
         for a, b in pairs:
             seqs.append((l, [a, b], ctx.rng.choice(["pos", "F"])))
         gl = sorted(g)
